@@ -40,7 +40,6 @@ impl OutputFormat for TundraDraw {
         // a reader starts with black on black, whatever the palette holds at index 0
         let mut last_fg = (0, 0, 0);
         let mut last_bg = (0, 0, 0);
-        let mut skip_pos = None;
         let mut colors = HashSet::new();
 
         let fonts = analyze_font_usage(buf);
@@ -51,34 +50,12 @@ impl OutputFormat for TundraDraw {
         for y in 0..buf.get_height() {
             for x in 0..buf.get_width() {
                 let pos = Position::new(x, y);
-                let ch = buf.get_char(pos);
-                let cur_attr = ch.attribute;
+                let mut ch = buf.get_char(pos);
                 if !ch.is_visible() {
-                    if skip_pos.is_none() {
-                        skip_pos = Some(pos);
-                    }
-                    continue;
+                    // nothing covers the cell: every cell has its place in the stream, it is stored as the blank it is shown as
+                    ch = AttributedChar::new(' ', TextAttribute::default());
                 }
-                /*
-                if ch.is_transparent() && attr.get_background() == 0 {
-                    if skip_pos.is_none() {
-                        skip_pos = Some(pos);
-                    }
-                    continue;
-                }
-
-                if let Some(pos2) = skip_pos {
-                    let skip_len =
-                        (pos.x + pos.y * buf.get_width()) - (pos2.x + pos2.y * buf.get_width());
-                    if skip_len <= TND_GOTO_BLOCK_LEN {
-                        result.resize(result.len() + skip_len as usize, 0);
-                    } else {
-                        result.push(TUNDRA_POSITION);
-                        result.extend(i32::to_be_bytes(pos.y));
-                        result.extend(i32::to_be_bytes(pos.x));
-                    }
-                    skip_pos = None;
-                }*/
+                let cur_attr = ch.attribute;
                 let ch = ch.ch as u32;
                 if ch > 255 {
                     return Err(SavingError::Only8BitCharactersSupported.into());
@@ -125,13 +102,6 @@ impl OutputFormat for TundraDraw {
                 result.push(ch as u8);
             }
         }
-        if let Some(pos2) = skip_pos {
-            let pos = Position::new(buf.get_width().saturating_sub(1), buf.get_height().saturating_sub(1));
-
-            let skip_len = (pos.x + pos.y * buf.get_width()) - (pos2.x + pos2.y * buf.get_width()) + 1;
-            result.resize(result.len() + skip_len as usize, 0);
-        }
-
         if options.save_sauce {
             buf.write_sauce_info(crate::SauceFileType::TundraDraw, &mut result)?;
         }
